@@ -27,6 +27,8 @@
 (*   F   fmt.Errorf("w: %w", inner): Unwrap(); text = "w: " ++ inner text  *)
 (*   E   errs.Wrap(inner): Cause() and Unwrap(); same text                 *)
 (*   C   a type with Cause() only; U a type with Unwrap() only; same text  *)
+(*   UV  an Unwrap()-only error of a value type that cannot be compared   *)
+(*       with == (it holds a slice); same text                             *)
 (*   TN  a typed nil pointer whose Unwrap() returns nil                    *)
 (* c = "X" is the enumerated code of the case, "7" the fixed code 7.       *)
 (* tail says what the innermost wrapper leads to when the chain does not   *)
@@ -255,6 +257,8 @@ EndShapes == {
     Sh("C150-HC-P", <<N("C", 150, ""), N("HC", 1, "X"), P>>, "end"),
     Sh("WC-F-P", <<N("WC", 1, "X"), N("F", 1, ""), P>>, "end"),
     Sh("WC-E-P", <<N("WC", 1, "X"), N("E", 1, ""), P>>, "end"),
+    Sh("UV-WC-P", <<N("UV", 1, ""), N("WC", 1, "X"), P>>, "end"),
+    Sh("UV3-P", <<N("UV", 3, ""), P>>, "end"),
     Sh("F-E-C-U-HC-P", <<N("F", 1, ""), N("E", 1, ""), N("C", 1, ""), N("U", 1, ""), N("HC", 1, "X"), P>>, "end"),
     Sh("WC-F-WC7-P", <<N("WC", 1, "X"), N("F", 1, ""), N("WC", 1, "7"), P>>, "end"),
     Sh("F-HC-U-WC7-P", <<N("F", 1, ""), N("HC", 1, "X"), N("U", 1, ""), N("WC", 1, "7"), P>>, "end"),
@@ -271,6 +275,8 @@ HostileShapes == {
     Sh("C-nil", <<N("C", 1, "")>>, "nil"),
     Sh("U3-nil", <<N("U", 3, "")>>, "nil"),
     Sh("F-E-C-nil", <<N("F", 1, ""), N("E", 1, ""), N("C", 1, "")>>, "nil"),
+    Sh("UV-nil", <<N("UV", 1, "")>>, "nil"),
+    Sh("UV2-U-self", <<N("UV", 2, ""), N("U", 1, "")>>, "self"),
     Sh("U-self", <<N("U", 1, "")>>, "self"),
     Sh("C-self", <<N("C", 1, "")>>, "self"),
     Sh("F-U-self", <<N("F", 1, ""), N("U", 1, "")>>, "self"),
